@@ -345,6 +345,7 @@ for pid, items in (("C02", [("WholeEndToEndM.v", "c_mantis_set_key_then_crypt_sp
         add_imports(pid, WHI + ["SpecMantis", "ModelCipher", "ProofsMantis", "WholeMantis", "WholeMantisKey", "WholeProc", "WholeCtr", "WholeCtrModel", "WholeCompose", "WholeComposeM", "WholeEndToEndM"]); PLAN[pid] += items
 
 # C04 history capstone (WholeEndToEndT.v)
-for pid, items in (("C04", [("WholeEndToEndT.v", "c_set_tweak128_fold"), ("WholeEndToEndT.v", "c_tweak_history_then_encrypt128_spec"), ("WholeEndToEndT.v", "c_tweak_history_then_encrypt64_spec")]),):
+for pid, items in (("C04", [("WholeEndToEndT.v", "c_set_tweak128_fold"), ("WholeEndToEndT.v", "c_tweak_history_then_encrypt128_spec"), ("WholeEndToEndT.v", "c_tweak_history_then_encrypt64_spec"),
+                              ("WholeEndToEndT.v", "c_tweak_history_then_decrypt128_spec"), ("WholeEndToEndT.v", "c_tweak_history_then_decrypt64_spec")]),):
     if pid in PLAN:
         add_imports(pid, WHI + ["ModelCipher", "ProofsSkinny", "WholeProc", "WholeCtr", "WholeCtrModel", "WholeKeyTweak", "WholeCompose", "WholeEndToEndT"]); PLAN[pid] += items
